@@ -71,7 +71,7 @@ var tokenCases = []string{"(/r)//child", "(/*)//child", "(/r)[1]//child", "(/r)/
 	"child:self", "child:child", "self:child", "self:self", "text:text", "text:self", "child:text", "text:child", "child::child:self", "self::child:self", "child::text:self", "child:*", "text:*", "child:self | text:self", "child:self + 1", "child:a", "p:self", "p:child", "q:text", "child:div", "@child:self"}
 
 func famC08(rn *Runner) {
-	ndocs := rn.Scale(6, 80)
+	ndocs := rn.Scale(6, 40)
 	for di := 0; di < ndocs && !rn.TooMany(); di++ {
 		d := rn.genDoc(rn.Scale(35, 90))
 		env := stdEnv()
